@@ -123,9 +123,19 @@ def build(sc):
     return net, objs, problems
 
 
+# normal-burst training sequences 0..7 of 3GPP TS 45.002 table 5.2.3a (TSC set 1), at bits 61..86 of a normal burst: a v1 recipient derives
+# the TSC field from them, so routing must work for each of them (a burst is delivered whatever training sequence it carries)
+NB_TSC = ("00100101110000100010010111", "00101101110111100010110111", "01000011101110100100001110", "01000111101101000100011110",
+          "00011010111001000001101011", "01001110101100000100111010", "10100111110110001010011111", "11101111000100101110111100")
+
+
 def bits_of(b):
     r = random.Random(b["bseed"])
-    return bytes(r.getrandbits(1) for _ in range(b["bl"]))
+    bits = bytearray(r.getrandbits(1) for _ in range(b["bl"]))
+    if b["bl"] == 148 and b["bseed"] % 3 != 0:          # two thirds of the GMSK bursts carry a normal-burst training sequence
+        ts = NB_TSC[b["bseed"] % 8]
+        bits[61:61 + len(ts)] = bytes(int(c) for c in ts)
+    return bytes(bits)
 
 
 def run_scenario(sc, fails, tag):
